@@ -288,6 +288,15 @@ func runC17(c *harness.Ctx) {
 		cutAt = t.Draw("cat", len(stages[cutStage]))
 	}
 
+	// bytes that follow the request itself (pipelined-trailing at the last stage)
+	var trailer, leftover []byte
+	leftoverRead := false
+	if malformed == "pipelined-trailing" && cutStage == len(stages)-1 {
+		trailer = make([]byte, 1+t.Draw("trailer", 40))
+		for i := range trailer {
+			trailer[i] = byte(0xC0 + i)
+		}
+	}
 	var req *socks5.Request
 	var hsErr error
 	var hsDone bool
@@ -298,10 +307,19 @@ func runC17(c *harness.Ctx) {
 		t0 := time.Now()
 		req, hsErr = socks5.Handshake(link.B)
 		hsTook = time.Since(t0)
-		hsDone = true
+		defer func() { hsDone = true }()
 		if hsErr == nil {
 			code := socks5.ReplyCode(t.Draw("replycode", 9))
 			req.Reply(code)
+			if len(trailer) > 0 {
+				// whatever the client sent behind its request belongs to the
+				// stream that is relayed next: it must still be on the connection
+				link.B.SetReadDeadline(time.Now().Add(2 * time.Second))
+				buf := make([]byte, len(trailer))
+				n, _ := io.ReadFull(link.B, buf)
+				link.B.SetReadDeadline(time.Time{})
+				leftover, leftoverRead = buf[:n], true
+			}
 		}
 	})
 	var clientSaw []byte
@@ -350,7 +368,7 @@ func runC17(c *harness.Ctx) {
 			}
 			if i == cutStage && malformed == "pipelined-trailing" {
 				// the next message (or a stray byte) rides in the same segment
-				extra := []byte{0}
+				extra := trailer
 				if i+1 < len(stages) {
 					extra = stages[i+1]
 				}
@@ -441,6 +459,9 @@ func runC17(c *harness.Ctx) {
 		if hsErr == nil {
 			// pipelined data that happened to be delivered separately is a conforming exchange
 			if malformed == "pipelined-trailing" || malformed == "silence" && cutAt == 0 {
+				if len(trailer) > 0 && leftoverRead && !bytes.Equal(leftover, trailer) {
+					c.Violate("C17/bytes-after-request-swallowed", "the client sent %d bytes right behind its request; Handshake succeeded, but only %d of them (% x) can still be read from the connection: the rest was silently dropped from the stream", len(trailer), len(leftover), leftover)
+				}
 				return
 			}
 			c.Violate("C17/malformed-accepted", "variant %q: Handshake returned success (target %q, args %v)", malformed, req.Target, req.Args)
